@@ -51,7 +51,12 @@ func SignWith(raw action.RawTx, privs ...keys.PrivateKey) []action.Signature {
 		if err != nil {
 			panic(err)
 		}
-		sigs = append(sigs, action.Signature{Signer: h.PubKey(), Signed: s})
+		pub := h.PubKey()
+		if pub.KeyType == keys.SECP256K1 && len(pub.Data) == 38 {
+			// PrivateKeySECP256K1.PubKey() keeps Tendermint's 5-byte amino prefix; a client sends the 33-byte key
+			pub.Data = pub.Data[5:]
+		}
+		sigs = append(sigs, action.Signature{Signer: pub, Signed: s})
 	}
 	return sigs
 }
